@@ -373,7 +373,16 @@ func (parser *Parser) ParseExpression(depth int) (res Sexp, err error) {
 			return MakeHash(nil, "hash", env) // return empty hash
 		case TokenString:
 			// peek ahead past the string to see if we have ':' TokenColonOperator
-			_, _ = parser.ParserPeekNextToken(extra)
+			_, err = parser.ParserPeekNextToken(extra)
+			if err != nil {
+				return SexpNull, err
+			}
+			if len(lexer.tokens) <= extra {
+				// the peek could not produce the token (e.g. input
+				// stopped, unterminated string): indexing the queue
+				// regardless panicked with index out of range.
+				break
+			}
 
 			// are we { "name": value }, as in JSON?
 			second := lexer.tokens[extra]
@@ -389,7 +398,13 @@ func (parser *Parser) ParseExpression(depth int) (res Sexp, err error) {
 
 		case TokenBeginBacktickString:
 			// peek ahead past the string to see if we have ':' TokenColonOperator
-			_, _ = parser.ParserPeekNextToken(extra + 1)
+			_, err = parser.ParserPeekNextToken(extra + 1)
+			if err != nil {
+				return SexpNull, err
+			}
+			if len(lexer.tokens) <= extra+1 {
+				break
+			}
 
 			// are we { `name`: value }, as in JSON but with backtick quoted string this time?
 			second := lexer.tokens[extra]
